@@ -251,18 +251,7 @@ func ScanRequest(buf []byte) (st ReqStatus, n int, args [][]byte, why string) {
 		if len(buf) > 64*1024 {
 			return ReqProtoError, 0, nil, "too big mbulk count string"
 		}
-		// a proper prefix only if it can still become "*<digits>\r\n"
-		for j, c := range buf[1:] {
-			if c == '\r' && j == len(buf)-2 && j > 0 {
-				continue
-			}
-			if c == '-' && j == 0 {
-				continue
-			}
-			if c < '0' || c > '9' {
-				return ReqProtoError, 0, nil, "invalid multibulk length"
-			}
-		}
+		// like Redis, judge a header line only once it is terminated
 		return ReqNeedMore, 0, nil, ""
 	}
 	if i < 2 || buf[i-1] != '\r' {
@@ -288,24 +277,15 @@ func ScanRequest(buf []byte) (st ReqStatus, n int, args [][]byte, why string) {
 		if pos >= len(buf) {
 			return ReqNeedMore, 0, nil, ""
 		}
-		if buf[pos] != '$' {
-			return ReqProtoError, 0, nil, fmt.Sprintf("expected '$', got %q", buf[pos])
-		}
 		j := bytes.IndexByte(buf[pos:], '\n')
 		if j < 0 {
-			rest := buf[pos+1:]
-			if len(rest) > 32 {
-				return ReqProtoError, 0, nil, "invalid bulk length"
-			}
-			for x, c := range rest {
-				if c == '\r' && x == len(rest)-1 && x > 0 {
-					continue
-				}
-				if c < '0' || c > '9' {
-					return ReqProtoError, 0, nil, "invalid bulk length"
-				}
+			if len(buf)-pos > 64*1024 {
+				return ReqProtoError, 0, nil, "too big bulk count string"
 			}
 			return ReqNeedMore, 0, nil, ""
+		}
+		if buf[pos] != '$' {
+			return ReqProtoError, 0, nil, fmt.Sprintf("expected '$', got %q", buf[pos])
 		}
 		if j < 2 || buf[pos+j-1] != '\r' {
 			return ReqProtoError, 0, nil, "bulk header not terminated by CRLF"
@@ -317,9 +297,6 @@ func ScanRequest(buf []byte) (st ReqStatus, n int, args [][]byte, why string) {
 		start := pos + j + 1
 		end := start + int(l)
 		if end+2 > len(buf) {
-			if end < len(buf) && buf[end] != '\r' {
-				return ReqProtoError, 0, nil, "bulk not followed by CRLF"
-			}
 			return ReqNeedMore, 0, nil, ""
 		}
 		if buf[end] != '\r' || buf[end+1] != '\n' {
